@@ -28,6 +28,10 @@
    loop over the reader returns the output archive and the unfinished list of the repair loop
    over a cursor on fs_spec D bs w, for any decoder step meeting the DecoderLaws — so the
    rows compared here do not depend on the schedule.  Definitions only. *)
+From MLA Require Import Limit.
+From MLAGen Require Src.
+(* executable entry points: the production value of BINCODE_MAX_DESERIALIZE (the same in both flavours), file-local *)
+#[local] Instance RUN_LIMIT : Limit := MLAGen.Src.BINCODE_MAX_DESERIALIZE_prod.
 From MLA Require Import Base Stream EncLayer Inst InstGcm CompFailSafe Run RunFsComp FsCompStream.
 From MLA.Concrete Require Aes.
 Open Scope N_scope.
